@@ -6,13 +6,15 @@ VERIF = Path(__file__).resolve().parent.parent
 
 CLAIMED = {
     "C01": dict(
-        text="Machine-checked translation correctness (C01_partial, ~2000 lines of Lean): for EVERY program of the decidable fragment InF (int/bool, + - *, unary minus, "
+        text="Machine-checked translation correctness (C01_partial, ~2000 lines of Lean): for EVERY program of the decidable fragment InF (int/bool, + - * // % & | ^, unary minus, abs/min/max, "
              "comparisons, and/or/not, conditional expressions, assignment, augmented assignment, if/elif/else, while, for-range, break, serial write, sleep, prologue + "
-             "main loop) and EVERY N, if the transpiler model accepts, the C semantics of the emitted program produces exactly CPython's trace (or C int overflow, which is "
-             "UB); the same holds with hoisted declarations (C01_partial_promotion: names first assigned directly in a top-level branch or loop body of the prologue become "
+             "main loop) and EVERY N, if the transpiler model accepts, the C semantics of the emitted program produces exactly CPython's trace, or hits C int overflow (UB), "
+             "or evaluates a / or % with a negative operand (the strict reading stops there with signedDiv: that is exactly where the emitted C division differs from Python's floor division, "
+             "known findings K01b/K01c, refuted by machine-checked witnesses on the raw reading; strict_run_is_raw_run relates the two); the operator tables _BIN/_UN/_CMP are regenerated "
+             "from the source on every run with named equality obligations (gen_BIN, gen_CMP, gen_UN); the same holds with hoisted declarations (C01_partial_promotion: names first assigned directly in a top-level branch or loop body of the prologue become "
              "globals; tr2 is a conservative extension of tr); break in the main loop is always rejected; the full statement is refuted by machine-checked counterexamples (and/or value, range limit). The model is tied "
-             "three ways on generated programs: emitted TEXT = render(tr p) (T), Python semantics = CPython (S_py), C semantics = compiled sketch (S_c); the end-to-end "
-             "oracle CPython-vs-firmware runs on the fragment and on scripts with one construct outside it (helpers, tuples, lists, f-strings, floats, //, %, continue …).",
+             "three ways on generated programs: emitted TEXT = render(tr p) (T), Python semantics = CPython (S_py), C semantics (strict and raw) = compiled sketch (S_c); the end-to-end "
+             "oracle CPython-vs-firmware runs on the fragment and on scripts with one construct outside it (helpers, tuples incl. side-effecting right-hand sides, lists, comprehensions over stepped ranges, f-strings, floats, /, continue …).",
         note="Trusted: Lean kernel (propext, Classical.choice, Quot.sound); the fragment is what is proved — helper functions, lists, strings, floats, promotion of names first "
              "assigned deeper than one block below the top level or inside the main loop are exercised only by the end-to-end oracle; C int is modelled unbounded with overflow as an explicit error at 32 bits (16-bit AVR "
              "int is a stronger side condition); langgen printers, pyoracle (CPython + host modules), mock core + host g++. Known findings K01a–K01j.",
@@ -97,7 +99,7 @@ CLAIMED = {
         technique="Lean 4 theorems re-checked on tables regenerated from the source (decide +kernel) + exhaustive call-shape oracle", ref="4/C08"),
     "C09": dict(
         text="Lean theorems over a heap model of the emitted list helpers and usage forms: in the owned discipline (lists declared once from a maker, then append / "
-             "remove / in-bounds indexing incl. negative / len / assignment from another declared list) no history produces a memory error, every live block is owned by "
+             "remove / in-bounds indexing incl. negative / len / assignment from another declared list / tuple swap of two declared lists) no history produces a memory error, every live block is owned by "
              "exactly one list and live blocks = number of non-empty lists (constant across passes when the lists' emptiness pattern is); the alias-copy, temporary and "
              "loop-local forms are decided by machine-checked counterexamples. The model's verdict and live-block count are compared with the compiled sketch under "
              "ASan+UBSan with counted array new/delete; sanitizer reports and per-pass heap growth on the real firmware are the oracle.",
